@@ -29,10 +29,11 @@ ASSUMPTIONS = [
     "loopy kernels inside LoopyCall nodes are keyed by loopy's own key builder (third-party)",
 ]
 SEEDS = ["0", "1", "2", "random"]
+SEEDS_THOROUGH = ["0", "1", "2", "3", "4", "5", "6", "7", "random"]
 
 
 def bounds(tier):
-    return {"hash_seeds": SEEDS}
+    return {"hash_seeds": SEEDS if tier == "quick" else SEEDS_THOROUGH}
 
 
 def enumerate_cases(tier, seed):
@@ -40,7 +41,7 @@ def enumerate_cases(tier, seed):
     g, base = nodepool.base_nodes()
     cases = [{"what": "node", "label": label} for label, _ in base]
     cases.append({"what": "data"})
-    for s in SEEDS:
+    for s in (SEEDS if tier == "quick" else SEEDS_THOROUGH):
         cases.append({"what": "child", "seed": s})
     return cases
 
